@@ -212,6 +212,11 @@ def check_c10(chk, args):
     q = chk.tier == 'quick'
     rng = chk.rng
     vals = universe(chk, 120 if q else 2500)
+    # sets whose members collide in the hash table, so that a COPY of the set (built at another table size) iterates
+    # in another order than the set itself: "the first N elements" are those of the value's own iteration order
+    coll = [frozenset([16, 1, 2, 3, 4, 5]), {16, 1, 2, 3, 4, 5}, frozenset([8, 1, 2, 3, 4]),
+            frozenset([32, 1, 2, 3, 4, 5, 6, 7, 8, 9, 10]), frozenset([64, 33, 1, 2, 3, 4, 5])]
+    vals += coll + [[coll[0]], {'k': coll[0], 'j': coll[3]}, (coll[4], coll[1])]
     cases = {}
     meta = {}
     nprints = 0
